@@ -427,12 +427,25 @@ Proof.
       set (n := N.min (cap c - blen (m_buf m)) (blen ch)) in *.
       set (m2 := m <| m_buf := m_buf m ++ takeN n ch |>) in *.
       set (s2 := s <| cur := Some m2 |>) in *.
-      set (chunks' := match dropN n ch with [] => rest | _ => dropN n ch :: rest end) in *.
       assert (HB : blen (m_buf m2) = blen (m_buf m) + n).
       { unfold m2. wsimpl. rewrite blen_app, blen_takeN. subst n. lia. }
       assert (P2 : Pst s2) by (destruct HP; constructor; assumption).
       assert (M2 : mwok c m2).
       { destruct HM as (M1 & M2 & M3). split; [exact M1|]. split; [exact M2|]. rewrite HB. subst n. lia. }
+      (* the source reported io.EOF together with this chunk and all of it went into the buffer *)
+      assert (Hcase : (dropN n ch = [] /\ rest = [] /\ e = None /\ s' = s2) \/
+                      read_from fuel c (match dropN n ch with [] => rest | _ => dropN n ch :: rest end) s2 = (e, s')).
+      { destruct (dropN n ch) as [|r0 rem]; [destruct rest as [|r1 rest1]|];
+          [left; inversion H; auto|right; exact H|right; exact H]. }
+      clear H. destruct Hcase as [(D1 & D2 & -> & ->)|H].
+      { split; [exact P2|]. split; [exact HE|]. split; [reflexivity|].
+        left. split; [reflexivity|]. exists [], ae, m2.
+        assert (Hch : takeN n ch = ch) by (rewrite <- (takeN_app_dropN n ch) at 2; rewrite D1, app_nil_r; reflexivity).
+        subst rest. cbn [concat]. rewrite app_nil_r. cbn [encode_frames flat_map]. rewrite app_nil_r.
+        split; [reflexivity|]. split; [reflexivity|]. split; [exact M2|]. split; [reflexivity|].
+        split; [constructor|]. split; [reflexivity|].
+        rewrite <- Hch at 1. apply Open_append. exact HO. }
+      set (chunks' := match dropN n ch with [] => rest | _ => dropN n ch :: rest end) in *.
       assert (HCC : concat chunks' = dropN n ch ++ concat rest) by apply concat_chunks_step.
       assert (R2 : wr_post c s2 m2 t (acc ++ takeN n ch) ae (concat chunks') e s').
       { apply (IH chunks' s2 m2 t _ ae e s' P2 HE eq_refl M2 V); [apply Open_append; exact HO| |exact H].
